@@ -157,7 +157,7 @@ def check_site(prog, rep, entry, site, np_funcs, kind):
             rep.add('H1', f, entry, text, site.call.lineno, None, 'depth is not a pair')
             return
         depth_vals = eval_in_scope(prog, f, elts)
-        fp = footprint_of(prog, kern, npos)
+        fp = footprint_of(prog, kern, npos, bound=tuple(pb or ()))
         if fp is None:
             rep.add('H1', f, entry, text, site.call.lineno, None, 'footprint of %s not derivable' % kern.qualname)
             return
@@ -188,7 +188,7 @@ def check_site(prog, rep, entry, site, np_funcs, kind):
                     facts={'depth': repr(depth_vals[axis])})
     else:
         # ---- H3 per-cell kernels
-        fp = footprint_of(prog, kern, npos, all_arrays=True)
+        fp = footprint_of(prog, kern, npos, all_arrays=True, bound=tuple(pb or ()))
         if fp is None:
             rep.add('H3', f, entry, text, site.call.lineno, None, 'kernel %s not interpretable' % kern.qualname)
             return
@@ -210,8 +210,10 @@ FP_CACHE = {}
 FP_RED = {}
 
 
-def footprint_of(prog, kern, npos=0, all_arrays=False):
-    key = (id(kern), all_arrays)
+def footprint_of(prog, kern, npos=0, all_arrays=False, bound=()):
+    """npos / bound: what functools.partial already supplies (leading positional arguments, keyword names): the block is
+    the first parameter left"""
+    key = (id(kern), all_arrays, npos, tuple(sorted(bound)))
     if key in FP_CACHE:
         return FP_CACHE[key]
     res = None
@@ -236,7 +238,8 @@ def footprint_of(prog, kern, npos=0, all_arrays=False):
                 FP_RED[id(kern)] = reds
                 res = (lo, hi, arrays)
             else:
-                fp, data, k, c = kernel_footprint(prog, k0, k0.params[0] if True else None)
+                free = [p_ for p_ in k0.params[npos:] if p_ not in bound] if k0 is kern else []
+                fp, data, k, c = kernel_footprint(prog, k0, free[0] if free else k0.params[0])
                 FP_RED[id(kern)] = fp.reducers
                 res = ([fp.lo[0] or [], fp.lo[1] or []], [fp.hi[0] or [], fp.hi[1] or []], data)
     except AnalysisIncomplete as e:
